@@ -198,12 +198,15 @@ def call_spec(ip, sp, args, kw):
         key = app.sexpr()
     st = ip.st
     done = st.ghost.setdefault('unfolded', set())
-    cur = st.ghost.get('fuel')
-    fuel = sp.fuel if cur is None else cur
+    fuels = st.ghost.setdefault('fuel', {})
+    depth = st.ghost.get('unfold_depth', 0)
+    fuel = fuels.get(sp.name, sp.fuel)
     if sp.opaque:
         # opaque: only its name and post-facts are visible unless the unit/lemma asks to reveal it
-        fuel = 1 if (sp.name in st.ghost.get('reveal', ()) or '*' in st.ghost.get('reveal', ())) else 0
-        cur = st.ghost.get('fuel')
+        revealed = (sp.name in st.ghost.get('reveal', ()) or '*' in st.ghost.get('reveal', ()))
+        fuel = fuels.get(sp.name, 1) if revealed else 0
+    if depth >= 3:
+        fuel = 0
     if key not in done:
         if sp.post is not None:
             done.add(key)   # avoid re-entry while evaluating post
@@ -213,11 +216,17 @@ def call_spec(ip, sp, args, kw):
             done.discard(key)
         if fuel > 0 and not sp.axiomatic:
             done.add(key)
-            st.ghost['fuel'] = fuel - 1
+            prev = fuels.get(sp.name)
+            fuels[sp.name] = fuel - 1
+            st.ghost['unfold_depth'] = depth + 1
             try:
                 body = _inline_spec(ip, sp, zargs)
             finally:
-                st.ghost['fuel'] = cur
+                st.ghost['unfold_depth'] = depth
+                if prev is None:
+                    fuels.pop(sp.name, None)
+                else:
+                    fuels[sp.name] = prev
             if multi:
                 for r, b, k in zip(res, body, sp.ret[1]):
                     st.assume_def(r.e == lift(b, k).e)
@@ -255,15 +264,22 @@ def unfold_hint(ip, args, kw):
     if sp is None:
         raise Unsupported("unfold of a non-spec function")
     st = ip.st
-    old = st.ghost.get('fuel')
-    st.ghost['fuel'] = max(1, kw.get('fuel', 1))
+    fuels = st.ghost.setdefault('fuel', {})
+    old = fuels.get(sp.name)
+    fuels[sp.name] = max(1, kw.get('fuel', 1))
+    rv = set(st.ghost.get('reveal', ()))
+    st.ghost['reveal'] = rv | {sp.name}
     try:
         zargs = [lift(ip.seq_view(a) if isinstance(a, Loc) else a, k) for a, k in zip(args[1:], sp.args)]
         app = sp.zfun(*[a.e for a in zargs]) if not isinstance(sp.zfun, list) else sp.zfun[0](*[a.e for a in zargs])
         st.ghost.setdefault('unfolded', set()).discard(app.sexpr())
         call_spec(ip, sp, list(args[1:]), {})
     finally:
-        st.ghost['fuel'] = old
+        st.ghost['reveal'] = rv
+        if old is None:
+            fuels.pop(sp.name, None)
+        else:
+            fuels[sp.name] = old
     return True
 
 
